@@ -178,16 +178,37 @@ def run_manager(ops):
     async def go():
         FakeAsyncZeroconf.log = []
         events = []
-        with patch.object(hr, "AsyncServiceInfo", FakeInfo), patch("aioesphomeapi.zeroconf.AsyncZeroconf", FakeAsyncZeroconf):
-            app = FakeAsyncZeroconf(origin="App")
+        no_sockets = {"on": False}
+
+        class MaybeFailingZeroconf(FakeAsyncZeroconf):
+            # a host without a multicast-capable interface: the engine cannot be created
+            def __init__(self, zc=None, origin="Lib"):
+                if no_sockets["on"] and zc is None and origin == "Lib":
+                    raise OSError(19, "No such device")
+                super().__init__(zc, origin)
+        with patch.object(hr, "AsyncServiceInfo", FakeInfo), patch("aioesphomeapi.zeroconf.AsyncZeroconf", MaybeFailingZeroconf):
+            app = MaybeFailingZeroconf(origin="App")
             mgr = ZeroconfManager()
             for op in ops:
                 n0 = len(FakeAsyncZeroconf.log)
+                no_sockets["on"] = op in ("getfail", "infofail")
                 try:
                     if op == "set":
                         mgr.set_instance(app)
                     elif op == "get":
                         mgr.get_async_zeroconf()
+                    elif op == "getfail":
+                        n_before = len(FakeAsyncZeroconf.log)
+                        try:
+                            mgr.get_async_zeroconf()
+                        except OSError:
+                            FakeAsyncZeroconf.log.append("raise")
+                    elif op == "infofail":
+                        FakeInfo.table = {"dev": ([1], [])}
+                        try:
+                            await priv_func(hr, "_async_zeroconf_get_service_info")(mgr, "_esphomelib._tcp.local.", "dev._esphomelib._tcp.local.", "dev.local.", 3.0)
+                        except Exception:  # noqa: BLE001  (the resolver reports "Cannot start mDNS sockets" as a ResolveAPIError)
+                            FakeAsyncZeroconf.log.append("raise")
                     elif op in ("infoOK", "infoERR"):
                         FakeInfo.table = {"dev": ([1], []) if op == "infoOK" else (None, None)}
                         try:
@@ -606,9 +627,11 @@ def run(rep, tier, seed):
         if il != mo:
             disagreements.append({"case": replay, "impl": il, "model": mo})
     # ---- manager histories
-    ops = ["set", "get", "infoOK", "infoERR", "close"]
-    L = 4 if tier == "quick" else 6
+    ops = ["set", "get", "infoOK", "infoERR", "close", "getfail", "infofail"]
+    L = 4 if tier == "quick" else 5
     seqs = [list(s) for n_ in range(1, L + 1) for s in itertools.product(ops, repeat=n_)]
+    if tier != "quick":
+        seqs += [list(s) for s in itertools.product(ops[:5], repeat=6)]
     zm = common.run_driver(["zc " + " ".join(s) for s in seqs])
     for s, mo in zip(seqs, zm):
         evs = run_manager(s)
